@@ -723,4 +723,18 @@ func checkStubInstalledWithContinuation(p *Prog, r *Report, rule string, only fu
 	if n == 0 {
 		r.Und(rule, "continuation-creating methods", "", "none found")
 	}
+	// every exported Apply installs its callback on every path (no "same callback, skip" shortcuts)
+	for _, f := range root {
+		if f.Object() == nil || f.Name() != "Apply" || f.Signature.Recv() == nil || (only != nil && !only(f)) || !reach[f] {
+			continue
+		}
+		okAll := true
+		for _, ret := range returnsOf(f) {
+			if !passedBefore(f, ret, isInstallCall, nil) {
+				okAll = false
+			}
+		}
+		r.Check(okAll, rule, shortName(f)+" installs the given callback on every path", p.Pos(f.Pos()), "every return passes an installing call",
+			"Apply can return without installing the callback it was given (an early-out such as 'same callback as before'): the most recent Apply is dropped and the earlier callback stays in effect")
+	}
 }
